@@ -252,7 +252,7 @@ func rulesC14(c *Ctx) {
 			[]string{`^\*param:rt\.Constraints\[param:kind\]\[.*\]\.ValidatorSet == nil$`, `^param:validatorEntities\[staking/api\.NewAddress\(\*+param:nodes\[[^\]]*\]\.node\.EntityID\)\]#1$`}, T,
 			"with the validator-set constraint only nodes of validator entities may be candidates")
 		c.GuardedByAny("C14.filter", fn, "VRF ⇒ node submitted a proof (or debug force-elect)",
-			[]string{`^\*param:beaconParameters\.Backend != "vrf"$`, `^\*param:vrf\.Pi\[\*+param:nodes\[[^\]]*\]\.node\.ID\] != nil$`, `^phi\(\(param:kind == \*+param:schedulerParameters\.DebugForceElect`}, T,
+			[]string{`^\*param:beaconParameters\.Backend != "vrf"$`, `^\*param:vrf\.Pi\[\*+param:nodes\[[^\]]*\]\.node\.ID\] != nil$`, `^phi\(\(\*+param:schedulerParameters\.DebugForceElect\[.*\]\.Kind == param:kind\)`}, T,
 			"with VRF elections only nodes that submitted a proof may be candidates")
 		// the collected element is the node of the loop element
 		okEl := !T.Empty()
@@ -548,8 +548,9 @@ func descendingCmp(v ssa.Value, an *ssa.Function) bool {
 	if !ok || len(an.Params) != 2 {
 		return false
 	}
-	call, ok := bo.X.(*ssa.Call)
-	k, kok := constInt(bo.Y)
+	bx, bop, by := cmpConstRight(bo)
+	call, ok := bx.(*ssa.Call)
+	k, kok := constInt(by)
 	if !ok || !kok || !strings.HasSuffix(calleeNameCommon(&call.Call), "quantity.(*Quantity).Cmp") {
 		return false
 	}
@@ -557,7 +558,7 @@ func descendingCmp(v ssa.Value, an *ssa.Function) bool {
 	x, y := vstr(call.Call.Args[0]), vstr(call.Call.Args[1])
 	ij := strings.Contains(x, pi) && !strings.Contains(x, pj) && strings.Contains(y, pj) && !strings.Contains(y, pi)
 	ji := strings.Contains(x, pj) && !strings.Contains(x, pi) && strings.Contains(y, pi) && !strings.Contains(y, pj)
-	greater := (bo.Op == token.EQL && k == 1) || (bo.Op == token.GTR && k == 0) || (bo.Op == token.GEQ && k == 1)
-	less := (bo.Op == token.EQL && k == -1) || (bo.Op == token.LSS && k == 0) || (bo.Op == token.LEQ && k == -1)
+	greater := (bop == token.EQL && k == 1) || (bop == token.GTR && k == 0) || (bop == token.GEQ && k == 1)
+	less := (bop == token.EQL && k == -1) || (bop == token.LSS && k == 0) || (bop == token.LEQ && k == -1)
 	return (ij && greater) || (ji && less)
 }
